@@ -53,6 +53,9 @@ type ExchangeOptions struct {
 	// The patterns accept some of the builder's core strings and refuse others. Not for checks
 	// whose oracle must evaluate the pattern (C01, C03): for checks that compare runs (C19).
 	ECMAPatterns bool
+	// SharedParamObjects: half of the object-shaped parameters take their schema from a component
+	// that is also the JSON body of a 202 response of the same operation.
+	SharedParamObjects bool
 }
 
 func primSchema(t *rapid.T, eo ExchangeOptions) *Schema {
@@ -111,6 +114,7 @@ func GenExchangeDoc(t *rapid.T, eo ExchangeOptions) Doc {
 			op.Description, op.Deprecated = DrawDocs(t, dense)
 		}
 		path := fmt.Sprintf("/e%d", i)
+		var sharedObjs []string
 		np := rapid.IntRange(0, 4).Draw(t, "nparams")
 		used := map[string]bool{}
 		for j := 0; j < np; j++ {
@@ -139,6 +143,13 @@ func GenExchangeDoc(t *rapid.T, eo ExchangeOptions) Doc {
 					o.Props = append(o.Props, Prop{Name: fn, Schema: primSchema(t, ExchangeOptions{Formats: eo.Formats, TimeFormat: eo.TimeFormat}), Required: f == 0 || rapid.Bool().Draw(t, "freq")})
 				}
 				p.Schema = o
+				if eo.SharedParamObjects && rapid.IntRange(0, 1).Draw(t, "sharedobj") == 0 {
+					// the parameter's object type is a COMPONENT that a JSON body uses too
+					cname := fmt.Sprintf("PObj%d_%d", i, j)
+					comps[cname] = o
+					p.Schema = &Schema{Ref: cname}
+					sharedObjs = append(sharedObjs, cname)
+				}
 			}
 			if c.In == "path" {
 				path += fmt.Sprintf("/%s/{%s}", rapid.SampledFrom([]string{"p", "x", "seg"}).Draw(t, "pseg"), nm)
@@ -220,6 +231,11 @@ func GenExchangeDoc(t *rapid.T, eo ExchangeOptions) Doc {
 			op.Responses = []Response{{Code: "2XX", Media: mkWrapped("m2xx")}, {Code: "default", Media: mkWrapped("mdef")}}
 		default:
 			op.Responses = []Response{{Code: "204"}, {Code: "200", Media: mkMedia("m200")}, {Code: "500", Media: mkMedia("m500")}}
+		}
+		for k, cname := range sharedObjs {
+			if k == 0 {
+				op.Responses = append(op.Responses, Response{Code: "202", Media: []Media{{ContentType: "application/json", Schema: &Schema{Ref: cname}}}})
+			}
 		}
 		doc.Ops = append(doc.Ops, op)
 	}
